@@ -545,7 +545,9 @@ impl S3 for FileSystem {
         req: S3Request<CreateMultipartUploadInput>,
     ) -> S3Result<S3Response<CreateMultipartUploadOutput>> {
         let input = req.input;
-        let upload_id = self.create_upload_id(req.credentials.as_ref()).await?;
+        let upload_id = self
+            .create_upload_id(req.credentials.as_ref(), &input.bucket, &input.key)
+            .await?;
 
         if let Some(ref metadata) = input.metadata {
             self.save_metadata(&input.bucket, &input.key, metadata, Some(upload_id))
@@ -566,6 +568,8 @@ impl S3 for FileSystem {
     async fn upload_part(&self, req: S3Request<UploadPartInput>) -> S3Result<S3Response<UploadPartOutput>> {
         let UploadPartInput {
             body,
+            bucket,
+            key,
             upload_id,
             part_number,
             ..
@@ -581,7 +585,11 @@ impl S3 for FileSystem {
         let body = body.ok_or_else(|| s3_error!(IncompleteBody))?;
 
         let upload_id = Uuid::parse_str(&upload_id).map_err(|_| s3_error!(InvalidRequest))?;
-        if self.verify_upload_id(req.credentials.as_ref(), &upload_id).await?.not() {
+        if self
+            .verify_upload_id(req.credentials.as_ref(), &upload_id, &bucket, &key)
+            .await?
+            .not()
+        {
             return Err(s3_error!(AccessDenied));
         }
 
@@ -611,7 +619,11 @@ impl S3 for FileSystem {
 
         let upload_id = Uuid::parse_str(&input.upload_id).map_err(|_| s3_error!(InvalidRequest))?;
         let part_number = input.part_number;
-        if self.verify_upload_id(req.credentials.as_ref(), &upload_id).await?.not() {
+        if self
+            .verify_upload_id(req.credentials.as_ref(), &upload_id, &input.bucket, &input.key)
+            .await?
+            .not()
+        {
             return Err(s3_error!(AccessDenied));
         }
 
@@ -736,7 +748,11 @@ impl S3 for FileSystem {
         let Some(multipart_upload) = multipart_upload else { return Err(s3_error!(InvalidPart)) };
 
         let upload_id = Uuid::parse_str(&upload_id).map_err(|_| s3_error!(InvalidRequest))?;
-        if self.verify_upload_id(req.credentials.as_ref(), &upload_id).await?.not() {
+        if self
+            .verify_upload_id(req.credentials.as_ref(), &upload_id, &bucket, &key)
+            .await?
+            .not()
+        {
             return Err(s3_error!(AccessDenied));
         }
 
@@ -806,7 +822,11 @@ impl S3 for FileSystem {
         } = req.input;
 
         let upload_id = Uuid::parse_str(&upload_id).map_err(|_| s3_error!(InvalidRequest))?;
-        if self.verify_upload_id(req.credentials.as_ref(), &upload_id).await?.not() {
+        if self
+            .verify_upload_id(req.credentials.as_ref(), &upload_id, &bucket, &key)
+            .await?
+            .not()
+        {
             return Err(s3_error!(AccessDenied));
         }
 
